@@ -175,7 +175,8 @@ Fallback(fs, inp, i, key, L, w0, attrs, none) ==
     LET J == {j \in 1..(i - 1) : Norm(inp[j].n) = Norm(key)}
     IN IF J = {} THEN none
        ELSE LET M == inp[CHOOSE j \in J : \A x \in J : x <= j]
-            IN IF M.k = "hard" THEN Res(FALSE, fs, w0)
+            IN IF M.k = "hard" \/ (M.k = "sym" /\ Kind(fs, L) = "dir")      \* the fallback cannot be made either: tarfile falls
+                  THEN Res(FALSE, fs, w0)                                    \* back again (RecursionError in practice)
                ELSE LET r == Place(fs, M.k, M.t, L, w0)
                     IN IF ~r.ok THEN r
                        ELSE Res(TRUE, r.fs, r.w \cup (IF attrs \/ M.k # "sym" THEN Touched(r.fs, L) ELSE {}))
@@ -277,7 +278,8 @@ Members ==
             [k : {"file"} \cap Kinds, n : {s \in Names : Proper(s)}, t : {<<>>}]
             \cup [k : {"dir"} \cap Kinds, n : Names, t : {<<>>}]
             \cup {m \in [k : {"sym", "hard"} \cap Kinds, n : {s \in Names : Proper(s) /\ Len(s) <= LinkNameLen}, t : LinkTargets] :
-                        m.t # m.n}          \* a link to itself is excluded (tarfile recurses without bound on some of them)
+                        /\ m.t # m.n          \* a link to itself is excluded (tarfile recurses without bound on some of them),
+                        /\ (m.k = "sym" => Norm(Front(m.n) \o m.t) # Norm(m.n))}      \* also when it only is one after resolution
       [] Mode = "manifest" -> [k : {"copy", "link"}, n : Names, t : Srcs]
       [] OTHER -> [k : {"copy", "link"}, n : {<<>>}, t : {"pa", "qa", "pd", "qd"}] \cup {[k |-> "extract", n |-> <<>>, t |-> "arch"]}
 (* ---- the "chain" family ------------------------------------------------------------------------------------------- *)
@@ -287,7 +289,7 @@ StaticallyClean(inp) == \A j \in 1..Len(inp) :
                             /\ LexInside(inp[j].n)
                             /\ (inp[j].k = "sym" => LexInside(Front(inp[j].n) \o inp[j].t))
                             /\ (inp[j].k = "hard" => LexInside(inp[j].t))
-ChainLinks(names) == {m \in [k : {"sym"}, n : {<<x>> : x \in names}, t : LinkTargets] : m.t # m.n}
+ChainLinks(names) == {m \in [k : {"sym"}, n : {<<x>> : x \in names}, t : LinkTargets] : Norm(m.t) # m.n}
 ChainTail == [k : {"file"} \cap Kinds, n : {s \in Names : Proper(s)}, t : {<<>>}]
              \cup [k : {"dir"} \cap Kinds, n : Names, t : {<<>>}]
              \cup {m \in [k : {"hard"} \cap Kinds, n : {s \in Names : Proper(s) /\ Len(s) <= LinkNameLen}, t : {s \in Names : Proper(s)}] :
